@@ -13,7 +13,8 @@ sys.path.insert(0, os.path.dirname(os.path.abspath(__file__)))
 import vf, args
 
 VT = ["1.0.0", "1.0.1", "1.1.0", "2.0.0-rc", "2.0.0", "2.1.0", "3.0.0"]
-MY_FINDINGS = ["C11-relax-prerelease-caret", "C12-explicit-introduced", "C11-update-nil-range"]
+MY_FINDINGS = ["C11-relax-prerelease-caret", "C12-explicit-introduced", "C11-update-nil-range",
+               "C11-override-ineffective-pin-loop", "C11-override-unfixing-patch", "C11-update-maven-hard-range"]
 
 GEN_QUICK = ["Remediation-relax-levels-quick.cfg", "Remediation-relax-options-quick.cfg",
              "Remediation-override-levels-quick.cfg", "Remediation-override-options-quick.cfg",
@@ -188,6 +189,14 @@ def maven_range_matches_nothing(sc):
     return False
 
 
+def hard_involved(sc, u):
+    """a Maven hard requirement (range) constrains the updated package, or the rewritten requirement was one"""
+    rng = lambda r: r.startswith("[") or r.startswith("(")
+    if sc["eco"] != "Maven":
+        return False
+    return rng(u["From"]) or any(d[0] == u["Name"] and rng(d[1]) for p in sc["universe"] for v in p["versions"] for d in v["deps"])
+
+
 def classify(case, f):
     """-> id of the known finding whose scenario class this finding belongs to, or None"""
     sc = case["scenario"]
@@ -203,6 +212,12 @@ def classify(case, f):
             return "C12-explicit-introduced"
     if f["kind"] == "panic" and o["mode"] == "update" and maven_range_matches_nothing(sc):
         return "C11-update-nil-range"
+    if f["kind"] == "hang" and o["strategy"] == "override":
+        return "C11-override-ineffective-pin-loop"
+    if f["kind"] == "not-upward" and o["strategy"] == "override" and d.get("patch") and not d["patch"]["Fixed"]:
+        return "C11-override-unfixing-patch"
+    if f["kind"] in ("not-upward", "level-exceeded") and o["mode"] == "update" and d.get("update") and hard_involved(sc, d["update"]):
+        return "C11-update-maven-hard-range"
     return None
 
 
@@ -309,7 +324,7 @@ def run(prop):
             if fid and ck.known_finding(fid, f["what"]):
                 continue
             unexcused = True
-            ck.violation("%s [%s%s] %s" % (prop, f["kind"], (" = unlisted finding " + fid) if fid else "", f["what"]),
+            ck.violation("%s [%s%s] %s" % (prop, f["kind"], (" = class of finding " + fid + " (not listed open)") if fid else "", f["what"]),
                          {"case": c, "finding": f, "stats": st})
         (bad_traces if unexcused else good_traces).append(o)
         if st["updates"] > 0 and len(ck.cov["samples"]) < 4 and (o["i"] % 97 == 0 or not ck.cov["samples"]):
